@@ -6,7 +6,7 @@ from vlib import genome as G, pipeline as P
 
 ID = "C05"
 RULE = ("Trios and two-child quartets on one contig: founders' haplotypes random (extra homozygous sites), children by random "
-        "transmission with 0-2 planted recombinations; a share of variants made Mendelian-inconsistent or missing in one "
+        "transmission with 0-2 planted recombinations; PED lines and VCF sample columns in independently drawn orders; a share of variants made Mendelian-inconsistent or missing in one "
         "member (in the VCF only); reads error-free at depth 0-6 per member, or absent altogether (phase without PHASEINPUT); "
         "uniform --recombrate (default and extreme values) or a generated --genmap; --tag PS/HP. Oracle on the output VCF: "
         "every phased child genotype a|b has a among the father's and b among the mother's alleles; variants with a conflict "
@@ -79,6 +79,9 @@ def gen(draw):
     c["noise"] = {str(k): v for k, v in noise.items()}
     if noreads:
         c["read_specs"] = []
+    # PED lines and VCF columns in independent orders
+    c["ped_order"] = list(draw(st.permutations(names[2:])))
+    c["vcf_order"] = list(draw(st.permutations(names))) if draw(st.booleans()) else list(names)
     c["opts"] = {"tag": draw(st.sampled_from(["PS", "PS", "HP"])),
                  "recomb": draw(st.sampled_from(["default", "default", "high", "low", "genmap"])),
                  "max_coverage": draw(st.sampled_from([15, 15, 6, 4]))}
@@ -107,12 +110,12 @@ class PedigreePart:
         names = case["samples"]
         children = names[2:]
         ref = G.write_fasta(case["contigs"], os.path.join(d, "ref.fa"))
-        vcf = G.write_vcf(case, os.path.join(d, "in.vcf"), gts=case["gts"])
+        vcf = G.write_vcf(case, os.path.join(d, "in.vcf"), gts=case["gts"], samples=case.get("vcf_order"))
         reads = G.render_specs(case, case["read_specs"])
         inputs = []
         if reads:
             inputs = [G.write_bam(case, reads, os.path.join(d, "reads.bam"))]
-        ped = G.write_ped([["father", "mother", ch] for ch in children], os.path.join(d, "fam.ped"))
+        ped = G.write_ped([["father", "mother", ch] for ch in case.get("ped_order", children)], os.path.join(d, "fam.ped"))
         o = case["opts"]
         kw = {}
         if o["recomb"] == "high":
@@ -227,7 +230,7 @@ class PedigreePart:
             ctx.label("recombination-listed")
         ctx.nontrivial(child_phased >= 2 and (nt_excluded or nt_forced or nt_recomb))
         for lab, flag in (("excluded-variant", nt_excluded), ("read-free-forced-variant", nt_forced), ("recombination-reported", nt_recomb),
-                          ("no-reads-at-all", not reads), ("quartet", len(children) == 2), ("recomb-" + o["recomb"], True), ("tag-" + o["tag"], True)):
+                          ("no-reads-at-all", not reads), ("quartet", len(children) == 2), ("ped-order-differs-from-vcf-order", [x for x in case.get("vcf_order", names) if x in children] != case.get("ped_order", children)), ("recomb-" + o["recomb"], True), ("tag-" + o["tag"], True)):
             if flag:
                 ctx.label(lab)
 
